@@ -159,18 +159,18 @@ fn run_inner(g: &G, strat: Strategy, o: &Opts) -> Outcome {
         Strategy::Bfs => { let c = b.spawn_bfs().join(); collect(&c, true) }
         Strategy::Dfs => { let c = b.spawn_dfs().join(); collect(&c, true) }
         Strategy::OnDemand => {
-            let c = b.spawn_on_demand();
+            let mut c = b.spawn_on_demand();
             c.run_to_completion();
-            // is_done() becomes true in every terminal case (market closed, or every property discovered);
-            // a generous time box, because the worker threads may be starved on a loaded machine
+            // the WORKER threads are the first `threads` handles (the last one forwards control messages and lives as
+            // long as the checker): the run is over when every worker has returned. (is_done() also turns true as soon
+            // as every property has a discovery, whether or not the workers go on under the configured finish condition.)
+            let hs = c.handles();
+            let workers = &hs[..o.threads.max(1).min(hs.len())];
             let t0 = Instant::now();
-            while t0.elapsed() < Duration::from_secs(20) && !c.is_done() {
+            while t0.elapsed() < Duration::from_secs(20) && !workers.iter().all(|h| h.is_finished()) {
                 std::thread::sleep(Duration::from_millis(1));
             }
-            // let the workers finish the block they are in (is_done flips before the visitor of the last
-            // states has necessarily run when all properties are discovered)
-            std::thread::sleep(Duration::from_millis(2));
-            let fin = c.is_done();
+            let fin = workers.iter().all(|h| h.is_finished());
             collect(&c, fin)
         }
         Strategy::Sim => {
